@@ -13,7 +13,7 @@
    is by definition the object's slot / time / signature (their agreement with the schema is C11). *)
 From Coq Require Import List Arith NArith.
 Import ListNotations.
-Require Import YF.Codec YF.ReadAt YF.Car YF.C01_IndexAll YF.C01_Check.
+Require Import YF.Codec YF.ReadAt YF.CI YF.Car YF.C04_Model YF.C04_Formats YF.C01_IndexAll YF.C01_Check YF.C01_Instance.
 
 Section Statements.
 Variable cid_parse : list N -> option (list N * nat).
@@ -67,6 +67,45 @@ Theorem C01_recorded_offsets_are_true : forall epoch hdr objs ixs idx o,
 Proof. exact (C01_recorded_offsets kind_of dec_block dec_sig ix ix_build ix_get ix_found sx sx_build). Qed.
 End Statements.
 
+(* ---- composed with C04: the abstract index replaced by the byte-level compact-index model (builder created
+   with the number of items and the value size of what is inserted, reader = Open + Lookup). The premise about
+   the index is GONE: it is discharged by C04's theorem for every entry-hash function and every bucket function
+   that stays below the bucket count (xxhash64 / EntryHash64 / BucketHash in particular), and every metadata
+   within the format bounds. (One metadata value stands for the per-kind metadata; the lookups do not depend on it.) *)
+Theorem C01_every_object_resolves_compact_index :
+  forall (cid_parse : list N -> option (list N * nat)) (good_cid : list N -> Prop), (forall c rest, good_cid c -> cid_parse (c ++ rest) = Some (c, length c)) ->
+  forall (kind_of : list N -> kind) (dec_block : list N -> option (N * N)) (dec_sig : list N -> option (list N)) (hash : N -> list N -> N) (bucket_of : nat -> list N -> nat), (forall nb k, 0 < nb -> bucket_of nb k < nb) ->
+  forall m, meta_ok m ->
+  forall (sx : Type) (sx_build : list (list N) -> option sx) (sx_has : sx -> list N -> bool), (forall sigs s x, sx_build sigs = Some s -> In x sigs -> sx_has s x = true) ->
+  forall epoch hdr objs ixs o,
+  wf_car good_cid kind_of dec_block objs ->
+  index_all kind_of dec_block dec_sig (list N) (ci_build hash bucket_of m) sx sx_build epoch hdr objs = Some ixs -> In o objs ->
+  get_node_by_cid cid_parse (list N) (ci_get hash bucket_of) sx ixs (Car.car hdr objs) (Car.cid o) = Some (Car.data o).
+Proof. exact C01_objects_with_compact_index. Qed.
+
+Theorem C01_every_slot_resolves_compact_index :
+  forall (cid_parse : list N -> option (list N * nat)) (good_cid : list N -> Prop), (forall c rest, good_cid c -> cid_parse (c ++ rest) = Some (c, length c)) ->
+  forall (kind_of : list N -> kind) (dec_block : list N -> option (N * N)) (dec_sig : list N -> option (list N)) (hash : N -> list N -> N) (bucket_of : nat -> list N -> nat), (forall nb k, 0 < nb -> bucket_of nb k < nb) ->
+  forall m, meta_ok m ->
+  forall (sx : Type) (sx_build : list (list N) -> option sx) (sx_has : sx -> list N -> bool), (forall sigs s x, sx_build sigs = Some s -> In x sigs -> sx_has s x = true) ->
+  forall epoch hdr objs ixs o slot time,
+  (epoch * epoch_len + epoch_len < 2 ^ 64)%N ->
+  wf_car good_cid kind_of dec_block objs ->
+  index_all kind_of dec_block dec_sig (list N) (ci_build hash bucket_of m) sx sx_build epoch hdr objs = Some ixs -> In o objs ->
+  is_block kind_of dec_block o slot time ->
+  find_cid_from_slot (list N) (ci_get hash bucket_of) sx ixs slot = Some (Car.cid o) /\ blocktime (list N) sx ixs slot = Some time.
+Proof. exact C01_slots_with_compact_index. Qed.
+
+Theorem C01_every_signature_resolves_compact_index :
+  forall (kind_of : list N -> kind) (dec_block : list N -> option (N * N)) (dec_sig : list N -> option (list N)) (hash : N -> list N -> N) (bucket_of : nat -> list N -> nat), (forall nb k, 0 < nb -> bucket_of nb k < nb) ->
+  forall m, meta_ok m ->
+  forall (sx : Type) (sx_build : list (list N) -> option sx) (sx_has : sx -> list N -> bool), (forall sigs s x, sx_build sigs = Some s -> In x sigs -> sx_has s x = true) ->
+  forall epoch hdr objs ixs o sg,
+  index_all kind_of dec_block dec_sig (list N) (ci_build hash bucket_of m) sx sx_build epoch hdr objs = Some ixs -> In o objs ->
+  is_tx kind_of dec_sig o sg ->
+  find_cid_from_sig (list N) (ci_get hash bucket_of) sx ixs sg = Some (Car.cid o) /\ sig_exists (list N) sx sx_has ixs sg = true.
+Proof. exact C01_sigs_with_compact_index. Qed.
+
 (* value codec and block-time file round trips (all values) *)
 Theorem C01_offset_size_codec_roundtrip : forall off len v, enc_os off len = Some v -> dec_os v = Some (off, len).
 Proof. exact dec_enc_os. Qed.
@@ -90,6 +129,9 @@ Print Assumptions C01_every_object_resolves.
 Print Assumptions C01_every_slot_resolves.
 Print Assumptions C01_every_signature_resolves.
 Print Assumptions C01_recorded_offsets_are_true.
+Print Assumptions C01_every_object_resolves_compact_index.
+Print Assumptions C01_every_slot_resolves_compact_index.
+Print Assumptions C01_every_signature_resolves_compact_index.
 Print Assumptions C01_offset_size_codec_roundtrip.
 Print Assumptions C01_blocktime_file_roundtrip.
 Print Assumptions C01_checker_offsets_are_model_offsets.
